@@ -577,7 +577,7 @@ func r3(c *core.Ctx, s *Sender) {
 				"the deferred clearing of the batch must not run on a path that did not send it: here sendFunc can return after the defer statement without reaching the send loop, so queued commands are discarded unsent", w...)
 		}
 	}
-	inLit := func(n ast.Node) bool { return s.Lit.Pos() <= n.Pos() && n.End() <= s.Lit.End() }
+	inLit := func(n ast.Node) bool { return s.InFlush(n) }
 	truncElsewhere, flushElsewhere := false, false
 	core.InspectAll(s.Fn.Decl.Body, func(n ast.Node) bool {
 		if as, ok := n.(*ast.AssignStmt); ok && isTrunc(as) && as.Tok != token.DEFINE && !inLit(as) {
@@ -610,14 +610,20 @@ func r3(c *core.Ctx, s *Sender) {
 	core.InspectAll(s.Fn.Decl.Body, func(n ast.Node) bool {
 		switch x := n.(type) {
 		case *ast.AssignStmt:
-			for _, l := range x.Lhs {
+			for i, l := range x.Lhs {
 				if ix, ok := ast.Unparen(l).(*ast.IndexExpr); ok && IsObj(info, s.Tunnel)(ix.X) {
 					c.Undecidedf(rule, "batch-element-write", x.Pos(), "`%s` overwrites an element of the batch", c.Src(x))
+				}
+				if id, ok := ast.Unparen(l).(*ast.Ident); ok && x.Tok == token.DEFINE && info.Defs[id] == s.Tunnel && len(x.Lhs) == len(x.Rhs) {
+					continue // the declaration of the batch, alone or in a parallel `a, b, c := ...`
+				}
+				if IsObj(info, s.Tunnel)(l) && len(x.Lhs) == len(x.Rhs) && len(x.Lhs) > 1 && x.Tok == token.ASSIGN && emptyBatch(info, x.Rhs[i]) && topLevelBefore(s.Fn.Decl.Body, x, s.Select) {
+					continue // the initialisation of the batch in a parallel assignment before the receive loop
 				}
 				if IsObj(info, s.Tunnel)(l) && !s.IsAppend(x) && !isTrunc(x) {
 					c.Undecidedf(rule, "batch-write", x.Pos(), "unexpected write of the batch variable")
 				}
-				if IsObj(info, s.Tunnel)(l) && isTrunc(x) && !(s.Lit.Pos() <= x.Pos() && x.End() <= s.Lit.End()) {
+				if IsObj(info, s.Tunnel)(l) && isTrunc(x) && !s.InFlush(x) {
 					if x.Tok == token.DEFINE {
 						continue
 					}
@@ -783,7 +789,7 @@ func r8(c *core.Ctx, s *Sender) {
 		eq, ok := EqFact(ft, IsObj(info, s.Fs), IsConstVal(info, no))
 		return ok && eq
 	}
-	call := IsCallTo(info, s.SendFunc)
+	call := s.IsFlushCall
 	n := 0
 	reach := BlocksFrom(cfgq.Point{B: s.TickBody, I: 0}, false, s.IsRecv)
 	for _, pt := range s.G.Points(setYes) {
@@ -841,4 +847,35 @@ func r8(c *core.Ctx, s *Sender) {
 		}
 		c.Failf(rule, "flush-requested", s.Tick.Pos(), "the ticker arm never requests a flush (no `flush = flushStatusYes`): cached commands below the thresholds are not sent while the stream is idle")
 	}
+}
+
+// emptyBatch: e is an empty slice: make(T, 0[, cap]), nil, or T{}.
+func emptyBatch(info *types.Info, e ast.Expr) bool {
+	e = ast.Unparen(e)
+	if core.IsNil(info, e) {
+		return true
+	}
+	switch x := e.(type) {
+	case *ast.CompositeLit:
+		return len(x.Elts) == 0
+	case *ast.CallExpr:
+		if bi, ok := core.Callee(info, x).(*types.Builtin); ok && bi.Name() == "make" && len(x.Args) >= 2 {
+			n, ok := core.IntConst(info, x.Args[1])
+			return ok && n == 0
+		}
+	}
+	return false
+}
+
+// topLevelBefore: st is a statement of body's own list that ends before node.
+func topLevelBefore(body *ast.BlockStmt, st ast.Stmt, node ast.Node) bool {
+	if node == nil || st.End() > node.Pos() {
+		return false
+	}
+	for _, x := range body.List {
+		if x == st {
+			return true
+		}
+	}
+	return false
 }
